@@ -8,6 +8,7 @@ from numlib import allclose, close, fl, fr, patched
 from vlib.par import pmap
 from vlib.tlc import MachineryError
 
+REAL_MW_MD = 18.01528e-3 / 28.9645e-3
 UNDECIDED = ["positivity, monotonicity and ordering of the Murphy-Koop formulas e_eq_water_mk / e_eq_ice_mk themselves",
              "their agreement to 1e-6 at the triple point"]
 
@@ -24,10 +25,11 @@ def replay(col, case):
     m = fr(case["m"])
     rep = {"abstract": {"v": case["v"], "Mw/Md": case["m"]}}
     with patched(C, molar_mass_water=float(m.numerator), molar_mass_dry_air=float(m.denominator)):
+        # canary: the stand-ins are "not effective" only if the function still answers with the REAL constants
         try:
-            canary = close(A.vmr2mixing_ratio(0.5), float(m))
+            canary = not close(A.vmr2mixing_ratio(0.5), REAL_MW_MD, 1e-9)
         except Exception:
-            canary = False
+            canary = True
         if not canary:
             col.bump("standin_constants_not_effective")
         else:
@@ -76,7 +78,7 @@ def replay(col, case):
         with patched(C, earth_standard_gravity=8.0, heat_of_vaporization=64.0, gas_constant_dry_air=2.0,
                      gas_constant_water_vapor=3.0, isobaric_mass_heat_capacity=4.0, molar_mass_water=1.0, molar_mass_dry_air=1.0):
             try:
-                canary = close(A.moist_lapse_rate(100.0, 8.0, e_eq=lambda T: 0.0), 2.0)
+                canary = not close(A.moist_lapse_rate(100.0, 8.0, e_eq=lambda T: 0.0), 9.80665 / 1003.5, 1e-9)
                 got = A.moist_lapse_rate(100.0, 8.0, e_eq=lambda T: 100.0 * xs)
                 col.count(1)
                 if not canary:
